@@ -43,6 +43,7 @@ type st struct {
 	outage      bool
 	noTap       bool
 	outageUntil time.Duration
+	refused     int // dials refused during the outage
 }
 
 func body(faultSet []string, useTLS bool) func(x *harness.X) {
@@ -98,7 +99,10 @@ func body(faultSet []string, useTLS bool) func(x *harness.X) {
 		}
 		ccfg.NewTransport = func(ctx context.Context) (lime.Transport, error) {
 			if s.outage && s.outageUntil > 0 && rt.Elapsed() < s.outageUntil {
-				x.Obs("client dial refused")
+				s.refused++
+				if s.refused <= 8 {
+					x.Obs("client dial refused")
+				}
 				return nil, errors.New("connection refused")
 			}
 			n := s.dials
@@ -255,6 +259,11 @@ func final(x *harness.X, res *rt.Result) {
 	}
 	if !s.snap {
 		return
+	}
+	// retry pacing: the unchanged client makes about five attempts in the 2 s outage (quadratic
+	// back-off from 100 ms); more than 30 attempts per second with nothing else to do is a busy loop
+	if s.refused > 60 {
+		x.Failf("retry-storm:"+s.fault, "the client dialled %d times during the 2 s outage: it retries without pausing %s", s.refused, hist)
 	}
 	// a fresh session was established and is usable
 	if len(s.estIDs) < 2 {
